@@ -10,6 +10,7 @@ from mc.common import Result, seed
 from mc import forests as F
 from mc.hsmcheck import sweep, VARIANTS_ALL, mixed_style, replay_generic
 
+SAME_NAME = [("plain", "plain_same_name"), ("instrumented", "spied_same_name")]
 PID = "C02"
 
 
@@ -49,7 +50,9 @@ def run(tier):
     sweep(res, [(gen, allf, VARIANTS_ALL[:1], [None]),
                 (gen, small, VARIANTS_ALL[1:], [None]),
                 (gen, small, VARIANTS_ALL[:2], [mixed_style]),
-                (gen, spine_f, VARIANTS_ALL[:1], [None])])
+                (gen, spine_f, VARIANTS_ALL[:1], [None]),
+                # every state function carries the same __name__ (distinct functions): states are known by identity
+                (gen, [f for f in allf if len(f) <= (5 if tier == "quick" else 6)], SAME_NAME, [None])])
     res.coverage.update({
         "rule": "every (forest<=%d states, current state, reaction vector along the active path: defer/decline below "
                 "the answerer, handle/transition at it, armed reactions above it, or nobody answers), two steps each; "
